@@ -36,7 +36,7 @@ def run_pipeline(spec: Dict[str, Any]) -> Dict[str, Any]:
     import reactivex
     from reactivex import Observable
     from reactivex.testing import ReactiveTest as R
-    ctx = cat.Ctx(spec["seed"], spec.get("fault_at"), spec.get("hot", False))
+    ctx = cat.Ctx(spec["seed"], spec.get("fault_at"), spec.get("hot", False) or bool(spec.get("poke")))
     s = ctx.s
     try:
         ys, flags = cat.build_pipeline(ctx, spec["names"], spec.get("form", "pipe"))
@@ -68,16 +68,34 @@ def run_pipeline(spec: Dict[str, Any]) -> Dict[str, Any]:
         else:
             ctx.ev(e="sink", k="N", v=_show(v))
 
+    def poke():
+        """the subscriber's terminal callback makes every hot source that still has observers emit once more, synchronously
+        (a branch that is still alive while the terminal notification is being delivered: before the tear-down)"""
+        if not spec.get("poke"):
+            return
+        for xs in list(ctx.sources):
+            kind = getattr(xs, "_kind", None)
+            if kind in ("num", "any", "tuple", "dict"):
+                for o in list(getattr(xs, "observers", ())):
+                    try:
+                        o.on_next({"num": 2, "any": 2, "tuple": (2, 9), "dict": {"k": 2, "j": 9}}[kind])
+                    except cat.Fault:
+                        raise
+                    except Exception:
+                        pass       # the operator cannot take an element now: not the subscriber's concern
+
     class SinkRaise(Exception):
         """the subscriber's own terminal callback raises (its exception is the subscriber's business; release is not)"""
 
     def on_error(e):
         ctx.ev(e="sink", k="E", err=type(e).__name__)
+        poke()
         if spec.get("sink_raise"):
             raise SinkRaise()
 
     def on_completed():
         ctx.ev(e="sink", k="C")
+        poke()
         if spec.get("sink_raise"):
             raise SinkRaise()
 
@@ -295,6 +313,8 @@ def _dims(rnd, dims):
         d["junk"] = rnd.choice([1, 2, 3, 4])
     if dims.get("sink_raise"):
         d["sink_raise"] = True
+    if dims.get("poke"):
+        d["poke"] = True
     return d
 
 
